@@ -147,11 +147,29 @@ WriteMism(e) ==
                ELSE (IF m[2] = "ok" THEN {"limited.success_beyond_limit"} ELSE {}))
          : i \in 1..Len(e.limited)}
 
+\* the LimitedReader machine stepped along the recorded calls (IoFault!LReadExact / LStartLayer; the real reader is not sticky after a
+\* budget error, so the error flag of the machine is cleared between calls): state after every call, error fields of a refusal
+RECURSIVE LrSteps(_, _, _, _)
+LrSteps(e, st, i, delivered) ==
+  IF i > Len(e.obs) THEN {}
+  ELSE LET n == e.calls[i][1]  o == e.obs[i]
+           st2 == IF n < 0 THEN LStartLayer(st) ELSE LReadExact(st, n, e.avail - st.pos)
+           kind == IF n < 0 THEN "ok" ELSE IF st.max - st.rd < n THEN "len" ELSE IF e.avail - st.pos < n THEN "io" ELSE "ok"
+           d2 == IF kind = "ok" /\ n > 0 THEN delivered + n ELSE delivered
+       IN (IF o[1] # kind THEN {"limited.call_verdict:" \o o[1] \o "/" \o kind} ELSE {})
+          \cup (IF <<o[2], o[3], o[4] - 40>> # <<st2.rd, st2.max, st2.off>> THEN {"limited.state"} ELSE {})
+          \cup (IF o[5] # d2 THEN {"limited.delivered"} ELSE {})
+          \cup (IF kind = "len" /\ o[1] = "len" /\ <<o[6], o[7], o[8] - 40, o[9]>> # <<st.rd + n, st.max, st.off, 1>> THEN {"limited.error_fields"} ELSE {})
+          \cup (IF st2.pos > e.max THEN {"SPEC.NeverOverpulls"} ELSE {})
+          \cup (IF kind = "io" THEN {} ELSE LrSteps(e, [st2 EXCEPT !.err = FALSE], i + 1, d2))
+LrMism(e) == LrSteps(e, L0(e.max), 1, 0) \cup (IF e.prefix # 1 THEN {"limited.bytes"} ELSE {})
+                \cup (IF Len(e.obs) > 0 /\ e.obs[Len(e.obs)][1] = "panic" THEN {"panic:lr"} ELSE {})
+
 VARIABLES l, bad
 TraceInit == l = 1 /\ bad = {}
 TraceNext == /\ l <= Len(Rec)
              /\ LET e == Rec[l]
-                    ms == IF e.ev = "io" THEN SliceMism(e) \cup ReadMism(e) \cup WriteMism(e) \cup SkipMism(e) ELSE {"panic:" \o e.type}
+                    ms == IF e.ev = "lr" THEN LrMism(e) ELSE IF e.ev = "io" THEN SliceMism(e) \cup ReadMism(e) \cup WriteMism(e) \cup SkipMism(e) ELSE {"panic:" \o e.type}
                 IN bad' = bad \cup {<<e.id, t>> : t \in ms}
              /\ l' = l + 1
 TraceSpec == TraceInit /\ [][TraceNext]_<<l, bad>>
